@@ -451,8 +451,7 @@ def run_trunc(case, seed, R):
                 T = np.zeros(0)
             R.observe(T)
             if T.shape != F.shape:
-                if warned and nmiss:
-                    classes['returned:warned:short-array'] += 1   # visibly not the full map; samples not marked though
+                classes['VIOLATION:returned-other-shape'] += 1
                 bad.setdefault(f'{site}:shape', []).append((c, f'shape {T.shape} vs untruncated {F.shape}'))
                 continue
             Tf, Ff = T.ravel(), F.ravel()
@@ -473,7 +472,7 @@ def run_trunc(case, seed, R):
                 k = int(np.flatnonzero(~complete)[np.flatnonzero(~np.isnan(Tf[qm]))[0]])
                 kind = 'silent' if not warned else 'warned-but-not-marked'
                 sig = f'{rname}:cut-{where}' if not warned else f'{site}:incomplete-sample-not-invalid'
-                classes[f'VIOLATION:{kind}:full-size-plausible-array'] += 1
+                classes[f'VIOLATION:{kind}:full-size-plausible-array:cut-{where}'] += 1
                 bad.setdefault(sig, []).append(
                     (c, f'file sample {k} incomplete but read as {Tf[q_of_k[k]]!r} (untruncated {Ff[q_of_k[k]]!r}), '
                         f'{"no warning" if not warned else "warning given"}'))
